@@ -185,6 +185,7 @@ struct Schedule {
     int stallYields = 0;                // withhold a due release for this many yields (slow node)
     bool notifyLost = false;            // the notify_all that accompanies stop is lost
     int64_t injectErrorAtYield = -1;    // N10: throw BlochError(Runtime) at this yield
+    int injectKind = 0;                 // 0 BlochError(Runtime); 1 a std::exception that is not a BlochError (e.g. what bad_alloc would be)
 };
 inline Schedule g_sched;
 inline size_t g_tickCursor = 0;
@@ -287,6 +288,7 @@ inline void onYield(void* evp, void* stmt) {
         if (!inDtor) {
             g_injected = true;
             g_stats.injectedAtYield = (int64_t)y;
+            if (g_sched.injectKind == 1) throw std::runtime_error("injected non-Bloch exception");
             throw bloch::support::BlochError(bloch::support::ErrorCategory::Runtime, 1, 1, "injected fault");
         }
     }
